@@ -308,6 +308,9 @@ pub mod shim {
             pub fn metadata(&self) -> io::Result<Metadata> {
                 self.f.metadata()
             }
+            pub fn set_len(&self, size: u64) -> io::Result<()> {
+                self.f.set_len(size)
+            }
         }
         impl io::Read for File {
             fn read(&mut self, b: &mut [u8]) -> io::Result<usize> {
